@@ -34,7 +34,7 @@ func C13(tier string) {
 	for i := 0; i < steps; i++ {
 		axis = append(axis, float32(-0.5+2.5*float64(i)/float64(steps-1)))
 	}
-	r.Rule(fmt.Sprintf("XYZ on the uniform lattice [-0.5,2]^3 (%d steps/axis) and the geometric lattice G^3 (|G|=%d) x %d whites (D50, D65, six others incl. (0.2,3,0.01)); per axis every float32 whose ratio to the white lies in 216/24389 +/- 1e-6; Y ramp of 2^20 steps for monotonicity; Lab lattice L in [-10,110], a,b in [-200,200] (%d steps/axis); multiples k*white; distinct = lattice points whose three ratios are not all on the same side of the junction plus junction-window floats", steps, len(geo), len(whites), labSteps))
+	r.Rule(fmt.Sprintf("XYZ on the uniform lattice [-0.5,2]^3 (%d steps/axis) and the geometric lattice G^3 (|G|=%d) x %d whites (D50, D65, six others incl. (0.2,3,0.01)); per axis every float32 whose ratio to the white lies in 216/24389 +/- 1e-6; Y ramp of 2^20 steps for monotonicity; Lab lattice L in [-10,110], a,b in [-200,200] (%d steps/axis); multiples k*white; conversions with pairs of whites differing by 1e-6..1e-2 relative on one axis, one after the other in both orders; distinct = lattice points whose three ratios are not all on the same side of the junction plus junction-window floats", steps, len(geo), len(whites), labSteps))
 	r.Assume("the 1e-3 bound on ToLAB is widened by 1.2e-7*|value| (one float32 ulp of the result), which only matters for the extreme white (0.2,3,0.01) where components reach 6e4")
 	r.Assume("reference: CIE 1976 L*a*b* with eps = 216/24389, kappa = 24389/27, cube root via math.Cbrt, float64")
 
@@ -202,6 +202,39 @@ func C13(tier string) {
 		if r.OutOfTime() {
 			r.Cap("time budget")
 			break
+		}
+	}
+	// whites that differ by less than any plausible "same white" tolerance, used
+	// one after the other: each conversion must use the white it was given
+	{
+		probes := []ciexyz.Color{{X: 0.3, Y: 0.4, Z: 0.2}, {X: 0.9, Y: 1, Z: 0.8}, {X: 0.01, Y: 0.005, Z: 0.02}}
+		for _, w := range whites {
+			for _, d := range []float32{1e-6, 1e-5, 8e-5, 3e-4, 1e-3, 1e-2} {
+				for axis := 0; axis < 3; axis++ {
+					w2 := w
+					switch axis {
+					case 0:
+						w2.X += d * w.X
+					case 1:
+						w2.Y += d * w.Y
+					default:
+						w2.Z += d * w.Z
+					}
+					for _, order := range [][2]ciexyz.Color{{w, w2}, {w2, w}} {
+						for _, wh := range order {
+							checkXYZ(wh, wh) // the white itself
+							l := wh.ToLAB(wh)
+							if math.Abs(float64(l.L)-100) > 1e-3 || math.Abs(float64(l.A)) > 1e-3 || math.Abs(float64(l.B)) > 1e-3 {
+								r.Violate("white-sequence", fmt.Sprintf("white %v maps to %v right after a conversion with the nearby white %v", wh, l, order[0]), nil, nil)
+							}
+							for _, p := range probes {
+								checkXYZ(p, wh)
+							}
+							r.Eval(int64(len(probes) + 1))
+						}
+					}
+				}
+			}
 		}
 	}
 	c := ciexyz.Color{X: 0.3, Y: 0.3, Z: 0.0085}
